@@ -26,13 +26,17 @@ CONSTANTS
   \* @type: Bool;
   MutatesModel,
   \* @type: Bool;
-  LoadKeepsCache
+  LoadKeepsCache,
+  \* @type: Bool;
+  MutatesNested
 
 VARIABLES
   \* @type: Set(Int);
   acc,
   \* @type: Int -> Str;
   model,
+  \* @type: Int -> Str;
+  nested,
   \* @type: { loaded: Int, ch: Str, cache: Int };
   w,
   \* @type: { prob: Int, foreign: Set(Int), cached: Bool, kind: Str };
@@ -40,7 +44,7 @@ VARIABLES
 
 NoRes == [prob |-> 0, foreign |-> {}, cached |-> FALSE, kind |-> "none"]
 
-Init == /\ acc = {} /\ model = [p \in Probs |-> "pristine"]
+Init == /\ acc = {} /\ model = [p \in Probs |-> "pristine"] /\ nested = [p \in Probs |-> "pristine"]
         /\ w = [loaded |-> 0, ch |-> "none", cache |-> 0]
         /\ res = NoRes
 
@@ -48,16 +52,20 @@ Analyse(p, kind) ==
   /\ res' = [prob |-> p, foreign |-> (IF SharedGraphDefault THEN acc \ {p} ELSE {}), cached |-> FALSE, kind |-> kind]
   /\ acc' = IF SharedGraphDefault THEN acc \cup {p} ELSE acc
 
-Call(p) == Analyse(p, "service") /\ UNCHANGED <<model, w>>          \* dictionary, value-with-unit dictionary, fresh model
+Call(p) == Analyse(p, "service") /\ UNCHANGED <<model, nested, w>>          \* dictionary, value-with-unit dictionary, fresh model
 CallModelReused(p) ==
   /\ Analyse(p, "service")
   /\ model' = IF MutatesModel THEN [model EXCEPT ![p] = "mutated"] ELSE model
-  /\ UNCHANGED w
+  /\ UNCHANGED <<nested, w>>
+CallNestedReused(p) ==
+  /\ Analyse(p, "service")
+  /\ nested' = IF MutatesNested THEN [nested EXCEPT ![p] = "mutated"] ELSE nested
+  /\ UNCHANGED <<model, w>>
 
 WLoad(p, ch) ==
   /\ w' = [loaded |-> p, ch |-> ch, cache |-> IF LoadKeepsCache THEN w.cache ELSE 0]
   /\ res' = [NoRes EXCEPT !.kind = "load"]
-  /\ UNCHANGED <<acc, model>>
+  /\ UNCHANGED <<acc, model, nested>>
 WServe(kind) ==
   /\ w.loaded # 0
   /\ IF w.cache # 0
@@ -65,12 +73,12 @@ WServe(kind) ==
           /\ UNCHANGED <<acc, w>>
      ELSE /\ Analyse(w.loaded, kind)
           /\ w' = [w EXCEPT !.cache = w.loaded]
-  /\ UNCHANGED model
+  /\ UNCHANGED <<model, nested>>
 
-Next == \/ \E p \in Probs : Call(p) \/ CallModelReused(p)
+Next == \/ \E p \in Probs : Call(p) \/ CallModelReused(p) \/ CallNestedReused(p)
         \/ \E p \in Probs, ch \in Channels : WLoad(p, ch)
         \/ WServe("target") \/ WServe("export")
-vars == <<acc, model, w, res>>
+vars == <<acc, model, nested, w, res>>
 Spec == Init /\ [][Next]_vars
 
 ---------------------------------------------------------------------------
@@ -78,6 +86,7 @@ Kinds == {"none", "load", "service", "target", "export"}
 TypeOK ==
   /\ acc \subseteq Probs
   /\ model \in [Probs -> {"pristine", "mutated"}]
+  /\ nested \in [Probs -> {"pristine", "mutated"}]
   /\ w.loaded \in Probs \cup {0} /\ w.cache \in Probs \cup {0} /\ w.ch \in Channels \cup {"none"}
   /\ res.prob \in Probs \cup {0} /\ res.foreign \subseteq Probs /\ res.kind \in Kinds /\ res.cached \in BOOLEAN
 
@@ -86,7 +95,7 @@ TypeOK ==
 IndInv ==
   /\ TypeOK
   /\ acc = {}                                                         \* C11_NoModuleState
-  /\ \A p \in Probs : model[p] = "pristine"                           \* C11_InputUnchanged
+  /\ \A p \in Probs : model[p] = "pristine" /\ nested[p] = "pristine"  \* C11_InputUnchanged
   /\ res.foreign = {}                                                 \* C11_Pure (second half)
   /\ (res.kind \in {"target", "export"} => res.prob = w.loaded)       \* C16_WrapperDescribesLoaded
   /\ (w.cache # 0 => w.cache = w.loaded)                              \* the cache never outlives the problem it was computed for
